@@ -64,6 +64,11 @@ pub fn source_objects_shaped(resources: usize, extras: usize, shape: usize) -> V
     o.push((51, Val::stream(vec![], b"BT /F1 9 Tf (third) Tj ET q 2 0 0 2 0 0 cm /Im1 Do Q /GS1 gs /Fm1 Do\n".to_vec())));
     set(&mut o, 2, "Kids", Val::Array(vec![Val::r(3), Val::r(4), Val::r(39)]));
     set(&mut o, 2, "Count", Val::Int(3));
+    // a crop box inherited from the page tree (pages 4 and 39 have none of their own), except in the
+    // documents with the cyclic private object, where those pages keep the default (their media box)
+    if extras != 1 {
+        set(&mut o, 2, "CropBox", Val::ints(&[36, 48, 280, 390]));
+    }
     let res_val = o.iter().find(|(n, _)| *n == 5).unwrap().1.clone();
     match resources {
         0 => {}
